@@ -201,13 +201,13 @@ func init() {
 		}
 	}
 	common := []string{"entity counts are small (<= 9 accounts); one bonded validator; governance voting period 10 s", "the enterprise denomination is never changed in these histories (C14 owns that)"}
-	fw.Register(&fw.Property{ID: "C02", Level: "exploration", Cases: cases(160, 6000), Assumptions: common, Need: []string{"mints", "block_boundaries"},
+	fw.Register(&fw.Property{ID: "C02", Level: "exploration", Cases: cases(160, 6000), Assumptions: common, Need: []string{"mints", "block_boundaries", "ok_MsgUndPurchaseOrder", "ok_MsgProcessUndPurchaseOrder", "ok_MsgWhitelistAddress"},
 		Rule: "each case: random genesis parameters (1-3 signers, account kinds incl. vesting, starting ids) + 40-60 block mixed history of enterprise / WRKChain / BEACON / stream / bank / staking txs, authz-nested and fee-granted variants, bad sequences, governance parameter changes and vetoed proposals (protocol burn). Per block phase and per tx: supply delta == completing orders - burn events; mint events only in BeginBlock by the enterprise account; at every boundary sum of all balances == supply per denom and every crisis-registered invariant holds. distinct = tx kind x nesting x outcome; non-trivial = history with >=1 mint and >=1 non-enterprise tx",
 		Run:  func(c *fw.Ctx) { runMixedProp(c, "C02") }})
-	fw.Register(&fw.Property{ID: "C04", Level: "exploration", Cases: cases(160, 6000), Assumptions: common, Need: []string{"completions", "unlocks", "book_checks"},
+	fw.Register(&fw.Property{ID: "C04", Level: "exploration", Cases: cases(160, 6000), Assumptions: common, Need: []string{"completions", "unlocks", "book_checks", "ok_MsgUndPurchaseOrder", "ok_MsgProcessUndPurchaseOrder", "ok_MsgWhitelistAddress", "ok_MsgRegisterWrkChain", "ok_MsgRegisterBeacon", "ok_MsgRecordWrkChainBlock", "ok_MsgRecordBeaconTimestamp"},
 		Rule: "mixed histories (as C02) with purchasers paying WRKChain/BEACON fees from locked eFUND and hostile transfers aimed at the escrow (MsgSend, MultiSend, authz-wrapped sends, streams towards it). At every boundary: escrow balance == TotalLocked == sum per-account locked, TotalSpent == sum per-account spent (keeper lists and the four gRPC queries), locked+spent == sum completed orders per account; every escrow delta attributed to an order completion (BeginBlock) or the payer's fee unlock. distinct = unlock kind; non-trivial = history with >=1 completion and >=1 unlock",
 		Run:  func(c *fw.Ctx) { runMixedProp(c, "C04") }})
-	fw.Register(&fw.Property{ID: "C05", Level: "exploration", Cases: cases(192, 8000), Assumptions: common, Need: []string{"unlocks_observed", "completions_observed"},
+	fw.Register(&fw.Property{ID: "C05", Level: "exploration", Cases: cases(192, 8000), Assumptions: common, Need: []string{"unlocks_observed", "completions_observed", "ok_MsgUndPurchaseOrder", "ok_MsgProcessUndPurchaseOrder", "ok_MsgWhitelistAddress", "ok_MsgRegisterWrkChain", "ok_MsgRegisterBeacon", "ok_MsgRecordWrkChainBlock", "ok_MsgRecordBeaconTimestamp"},
 		Rule: "mixed histories with purchasers of every account kind (base, delayed/continuous/periodic vesting, permanent-locked), fee sets {none, low, exact, high, extra denom}, fee granters, bad sequences, nested WRKChain/BEACON ops. Per DeliverTx for every account: locked falls only for the fee payer of a tx with a top-level WRKChain/BEACON message that passed ante, by exactly min(fee, locked), recorded as spent; at a completion the purchaser's spendable (same block time) does not rise. distinct = (account kind, locked vs fee, granter?, fee denoms, outcome)",
 		Run:  func(c *fw.Ctx) { runMixedProp(c, "C05") }})
 	fw.Register(&fw.Property{ID: "C17", Level: "exploration", Cases: cases(128, 4000), Assumptions: append(common, "total native supply stays below 2^63 (EnterpriseSupply is uint64-typed by its API)"), Need: []string{"supply_queries", "page_walks"},
